@@ -51,7 +51,7 @@ TRIAGE = {
     ("fields.AbstractFieldFormat.__init__", "field_name"): (GUARDED, "validated_field_name refuses an empty name"),
     ("fields.IntegerFieldFormat.__init__", "self.length.lower_limit == self.length.upper_limit"): (INPUT, "F10d: fixed format, Integer field with a length range; the fixed-length guards run after construction"),
     ("fields.field_name_index", "available_field_names"): (GUARDED, "AbstractCheck.__init__ raises without fields"),
-    ("fields.field_name_index", "field_name_to_look_up == field_name_to_look_up.strip()"): (INTERNAL, "NAME tokens carry no blanks"),
+    ("fields.field_name_index", "field_name_to_look_up == field_name_to_look_up.strip()"): (INPUT, "F86: the 3.12 tokenizer folds non-ASCII white space (NBSP, NEL, U+2028, U+3000) next to a name into the NAME token, so a check rule 'a,\u00a0b' falsifies it"),
     ("interface.Cid._create_check_class", "check_type"): (GUARDED, "check type + 'Check' must be a known class name"),
     ("interface.Cid._create_class", "type_name"): (INTERNAL, "literal"),
     ("interface.Cid._create_class", "class_name_appendix"): (INTERNAL, "literal"),
